@@ -28,7 +28,9 @@
 (***************************************************************************)
 EXTENDS Integers, Sequences, FiniteSets, TLC, Json, IOUtils
 
-CONSTANT Families    \* sequence of [name |-> STRING, n |-> Nat]; substituted in the .cfg files
+CONSTANTS Families,  \* sequence of [name |-> STRING, n |-> Nat]; substituted in the .cfg files
+          RankFixed  \* FALSE: Rank as in the code today (finding KF2); TRUE: Rank after the proposed fix
+                     \* (|= aligned at the end, boxes sorted by descending number of one bits)
 
 U == 16384
 BP == <<-16384, -8192, 0, 8192, 16384>>
@@ -181,13 +183,16 @@ RankOr(a, b) ==
 \* impl BitOrAssign: missing leading words are copied from rhs, then words are OR-ed pairwise FROM THE
 \* FRONT (zip), which is only aligned when self is not longer than rhs
 RankOrAssign(self, rhs) ==
-    LET missing == Max(0, Len(rhs) - Len(self))
-        ext == SubSeq(rhs, 1, missing) \o self
-    IN TLCEval([k \in 1..Len(ext) |-> IF k <= Len(rhs) THEN ext[k] \cup rhs[k] ELSE ext[k]])
+    IF RankFixed THEN RankOr(self, rhs)
+    ELSE LET missing == Max(0, Len(rhs) - Len(self))
+             ext == SubSeq(rhs, 1, missing) \o self
+         IN TLCEval([k \in 1..Len(ext) |-> IF k <= Len(rhs) THEN ext[k] \cup rhs[k] ELSE ext[k]])
 RankZero(r) == \A k \in 1..Len(r) : r[k] = {}
 RECURSIVE SumZerosR(_, _)
 SumZerosR(r, k) == IF k > Len(r) THEN 0 ELSE (64 - Cardinality(r[k])) + SumZerosR(r, k + 1)
 RankCountZeros(r) == SumZerosR(r, 1)
+\* the key boxes are sorted by (stable, ascending)
+RankSortKey(r) == IF RankFixed THEN 64 * Len(r) - SumZerosR(r, 1) ELSE RankCountZeros(r)
 \* indices of the set bits, ascending (the right_shift_one loop)
 RankBits(r) == SortedSeq(UNION {{64 * (Len(r) - k) + b : b \in r[k]} : k \in 1..Len(r)})
 
@@ -247,7 +252,7 @@ OverRules(ms, i, boxmap) ==
 \*    (conditional_subs[i] would be indexed out of range)]
 OverlayMerged(ms) ==
     LET boxmap == OverRules(ms, 1, InitMap)
-        srt == SortByKey(TLCEval([k \in 1..Len(boxmap) |-> [k |-> <<RankCountZeros(boxmap[k].rank)>>, v |-> boxmap[k]]]))
+        srt == SortByKey(TLCEval([k \in 1..Len(boxmap) |-> [k |-> <<IF RankFixed THEN 0 - RankSortKey(boxmap[k].rank) ELSE RankSortKey(boxmap[k].rank)>>, v |-> boxmap[k]]]))
         keep == SelectSeq(srt, LAMBDA e : ~RankZero(e.v.rank))
         bitsOf(k) == RankBits(keep[k].v.rank)
     IN [items |-> TLCEval([k \in 1..Len(keep) |->
@@ -357,7 +362,7 @@ MapDiff(m1, m2) == {g \in DOMAIN m1 \cup DOMAIN m2 :
 \*       64 merged rules, a rank gets a bit beyond the rule list: the implementation panics)
 KF1(rep, got) == \A g \in MapDiff(rep.e, got) : g \in DOMAIN rep.c /\ g \in DOMAIN got
                                                /\ \E k \in 1..Len(rep.c[g]) : rep.c[g][k] = got[g]
-KF2(rep) == rep.h
+KF2(rep) == ~RankFixed /\ rep.h
 
 RECURSIVE ClassifyR(_, _, _, _)
 \* reps: sequence of point reports -> [classes |-> distinct reports, cls |-> index per report]
@@ -556,7 +561,7 @@ CurReport == LET c == CurCase
 \* states the design-level property.  TLC runs with -continue: a failure is reported with its state
 \* (fam, idx) and is a DESIGN-level finding outside the characterised classes; the run goes on.
 EmitAndDesign == lvl = 2 => LET rp == CurReport
-                                ok == DesignOK(rp) /\ (rp.panic => rp.nmerged > 64)
+                                ok == DesignOK(rp) /\ (rp.panic => (~RankFixed /\ rp.nmerged > 64))
                             IN PrintT(<<"REPLAY", ToJson(rp @@ [design |-> ok])>>) /\ ok
 
 -----------------------------------------------------------------------------
